@@ -64,7 +64,7 @@ func parseHeader(data []byte) *PageHeader {
 
 func parseItems(data []byte, h *PageHeader) []ItemID {
 	var items []ItemID
-	for off := headerSize; off < int(h.Lower); off += itemIDSize {
+	for off := headerSize; off < int(h.Lower) && off+itemIDSize <= len(data); off += itemIDSize {
 		raw := u32(data, off)
 		items = append(items, ItemID{
 			Offset: int(raw & 0x7FFF),
